@@ -151,6 +151,26 @@ impl Names {
             }
         }
 
+        // the pure function under other spellings of a base directory: empty (= the current
+        // directory), relative, with a trailing separator, the file-system root. The result must
+        // lie below the base as written - in particular stay relative for a relative base.
+        for base in ["", ".", "rel", "rel/", "./rel/sub", "/", "/abs/base/", "a b", "\u{e9}t\u{e9}"] {
+            let base = std::path::Path::new(base);
+            if let Some(p) = minijinja::verif::safe_join(base, name) {
+                let want: Vec<&str> = name.split('/').filter(|s| !s.is_empty()).collect();
+                let ok = match p.strip_prefix(base) {
+                    Err(_) => false,
+                    Ok(rest) => {
+                        rest.components().all(|c| matches!(c, Component::Normal(_)))
+                            && rest.components().map(|c| c.as_os_str().to_string_lossy().to_string()).collect::<Vec<_>>() == want
+                    }
+                };
+                if !ok || p.has_root() != base.has_root() {
+                    v.set_fail("safe_join_outside", format!("safe_join({base:?}, {name:?}) = {p:?} is not the base followed by the segments {want:?}"));
+                }
+            }
+        }
+
         // through the environment, by the host and from inside templates
         let mut env = Environment::new();
         env.set_loader(path_loader(&t.base));
@@ -280,7 +300,7 @@ pub fn enumerate(max: usize) -> Vec<NameCase> {
 crate::declare_parts!(Names);
 
 pub fn run(ctx: &mut Ctx) {
-    ctx.rule = "all joins by '/' of 1..=N segments from the 14-entry alphabet {'', '.', '..', '...', 'a', '.a', 'a.', 'a..b', 'a\\\\b', '..\\\\a', NUL, '%2e%2e', fullwidth dots, 200-char} (N = 5, enumerated completely in both tiers) plus generated names with leading/trailing/doubled slashes and character noise (slash look-alikes, percent escapes, newlines, canary names); each name is passed to safe_join (hook), Environment::get_template, and to include / include-list / extends / import inside templates against a real scratch tree with OUTSIDE canaries next to and above the base. Non-trivial: a dot-initial, backslash, NUL or empty segment, or more than two segments. Distinct by name.".into();
+    ctx.rule = "all joins by '/' of 1..=N segments from the 14-entry alphabet {'', '.', '..', '...', 'a', '.a', 'a.', 'a..b', 'a\\\\b', '..\\\\a', NUL, '%2e%2e', fullwidth dots, 200-char} (N = 5, enumerated completely in both tiers) plus generated names with leading/trailing/doubled slashes and character noise (slash look-alikes, percent escapes, newlines, canary names); each name is passed to safe_join (hook; with the scratch base and with 9 other spellings of a base: empty, relative, trailing separator, root), Environment::get_template, and to include / include-list / extends / import inside templates against a real scratch tree with OUTSIDE canaries next to and above the base. Non-trivial: a dot-initial, backslash, NUL or empty segment, or more than two segments. Distinct by name.".into();
     ctx.assumptions = vec![
         "no symbolic links inside the base (the property exempts them)".into(),
         "Linux path semantics (backslash is an ordinary file-name character)".into(),
